@@ -786,6 +786,17 @@ func (r *runner) step(si int, ops []Op) (cont bool, harness string) {
 			r.violate("panic:"+strings.SplitN(res.panic, ":", 2)[0], "%s panicked: %s", where, res.panic)
 			continue
 		}
+		if res.jobMissing {
+			name, what := refreshJob, "refresh"
+			if op.Kind == "registration" {
+				name, what = registrationJob, "registration"
+			}
+			if !r.jobDropped(name) {
+				return false, "periodic job " + name + " vanished without the scheduler having dropped it"
+			}
+			r.violate(what+"-job-cancelled", "%s: the periodic job %q is no longer scheduled: the context vouch scheduled it with has ended", where, name)
+			return false, ""
+		}
 		v := *r.validator(op.Validator)
 		switch op.Kind {
 		case "lookup":
@@ -938,6 +949,24 @@ func runCase(c *Case, known func(string) bool) (viols []violation, labels map[st
 	if len(r.locks) == 0 || r.sem == nil {
 		return nil, r.labels, false, "no lock fields found in the service by reflection"
 	}
+	// New starts the first registration round on a goroutine of its own: let it finish.
+	deadline := time.Now().Add(watchdog)
+	for {
+		r.w.mu.Lock()
+		n := r.w.accountsCalls
+		r.w.mu.Unlock()
+		if n >= 2 && r.sem.TryAcquire(1) {
+			r.sem.Release(1)
+			break
+		}
+		if time.Now().After(deadline) {
+			return nil, r.labels, false, "the initial registration round did not finish"
+		}
+		time.Sleep(time.Millisecond)
+	}
+	r.w.mu.Lock()
+	r.w.accountsMode = "ok"
+	r.w.mu.Unlock()
 	// New has returned and its context is alive: the periodic jobs must be in place.
 	// A job the scheduler dropped because vouch scheduled it under a context that
 	// vouch itself has ended is a violation (no refresh / registration round will
@@ -961,24 +990,6 @@ func runCase(c *Case, known func(string) bool) (viols []violation, labels map[st
 	if gone {
 		return r.viols, r.labels, false, ""
 	}
-	// New starts the first registration round on a goroutine of its own: let it finish.
-	deadline := time.Now().Add(watchdog)
-	for {
-		r.w.mu.Lock()
-		n := r.w.accountsCalls
-		r.w.mu.Unlock()
-		if n >= 2 && r.sem.TryAcquire(1) {
-			r.sem.Release(1)
-			break
-		}
-		if time.Now().After(deadline) {
-			return nil, r.labels, false, "the initial registration round did not finish"
-		}
-		time.Sleep(time.Millisecond)
-	}
-	r.w.mu.Lock()
-	r.w.accountsMode = "ok"
-	r.w.mu.Unlock()
 	r.checkLocks("after construction")
 
 	for si := range c.Steps {
